@@ -351,7 +351,8 @@ def run(tier):
     pool = ThreadPoolExecutor(max_workers=4)
 
     # 1. design (counter per object) implements the meaning (who refers to what) for all histories in the bound
-    mc = pool.submit(vlib.tlc, "MC_RefCount", cfg["mc"], coverage=(tier == "thorough"), workers=max(4, vlib.NCPU // 2))
+    mc = pool.submit(vlib.tlc, "MC_RefCount", cfg["mc"], coverage=(tier == "thorough"),
+                   workers=vlib.NCPU if tier == "thorough" else max(4, vlib.NCPU // 2))
 
     # 3. binding B: seeded histories recorded from the real code, validated by TLC
     hist = gen_histories(ck, cfg["nhist"], cfg["steps"])
